@@ -312,6 +312,13 @@ def run_c04_real(ctx):
         stmts = [st.copy() for st in ap.builders[ph.name].statements]
         for st in stmts:
             st.depends_on = OrdFS(st.depends_on, chooser, "deps:" + st.id)
+        if stmts and tape.chance(0.3, "handwritten_nop"):
+            # a hand-written no-op that joins some statements (as in test_basic_conditional_codegen)
+            deps_n = [st.id for st in stmts if tape.chance(0.4, "nopdep")]
+            nop = Nop(id="join_%s" % ph.name, depends_on=deps_n)
+            nop.depends_on = OrdFS(nop.depends_on, chooser, "deps:" + nop.id)
+            stmts.append(nop)
+            ctx.count("probe:real_mode_nop")
         storage = [stmts[i] for i in tape.perm(len(stmts), "storage")]
         phases[ph.name] = SimPhase(ph.name, ph.next_phase, storage, chooser)
         info[ph.name] = {st.id: set(st.depends_on) for st in stmts}
@@ -336,12 +343,12 @@ def run_c04_real(ctx):
             state["visited"].append(stmt.id)
             got = NumpyInterpreter.evaluate_condition(self, stmt)
             try:
-                want = guard_value(stmt.condition, self.context)
+                want = guard_value(getattr(stmt, "condition", True), self.context)
             except KeyError:
                 want = None
             if want is not None and bool(got) != want:
                 viol("guard-unfaithful", "evaluate_condition(%r) returned %r but its guard %s is %r in the "
-                     "current store" % (stmt.id, got, stmt.condition, want))
+                     "current store" % (stmt.id, got, getattr(stmt, "condition", True), want))
             if not got:
                 ctx.count("probe:real_guard_false")
             else:
@@ -392,12 +399,20 @@ def run_c04_real(ctx):
         except Violation:
             raise
         except Exception as e:
-            if type(e) in ERRORS.values():
+            import traceback
+            tb = traceback.extract_tb(e.__traceback__)
+            where = [f.name for f in tb if "/dagrt/" in f.filename]
+            if type(e) in ERRORS.values() and where and where[-1] == "exec_Raise":
                 out = "raised"
             else:
-                from simdag.core.outcome import Discard
-                raise Discard("ill-defined:interpreter-raises:" + type(e).__name__)
+                # the reference stepper ran these very steps without a problem: the program is well
+                # defined, so this is the interpreter's doing
+                raise Violation("interpreter-exception:" + type(e).__name__,
+                                "phase %s, visits %r: %r" % (state["phase"], state["visited"], e),
+                                site=where[-1] if where else "real")
         outcomes.append(out)
+        if out == "raised":
+            break
         max_visits = max(max_visits, len(state["visited"]))
         if out == "completed":
             missing = sorted(set(info[cur]) - set(state["visited"]))
